@@ -254,6 +254,9 @@ func runC07(c *kit.Ctx) {
 	c.StartRule("R4", "success flag bookkeeping across retry rounds; a call that fails without being retried is remembered", 7)
 	successFlag(c, sb, batchParam)
 	successFlagLoweredOnlyWithAnError(c)
+	batchFlagLoweredOnlyWithAnError(c)
+	lookupFailuresReachTheirSlots(c)
+	batchRetriesUntilNothingIsLeft(c)
 
 	// ---- R1 ---------------------------------------------------------------
 	c.StartRule("R1", "every store into a result slot is indexed by the original position of the call it describes", 6)
@@ -438,6 +441,96 @@ func runC07(c *kit.Ctx) {
 					if ec, ok := kit.Root(cmp.X).(*ssa.Call); ok && kit.CalleeName(ec) == ctxErr && sameContext(ec.Call.Value, y) {
 						good = true
 					}
+				}
+			}
+			// or: a flag that is raised only in the arm that saw <-X.Done() is known to be up (one loop that waits
+			// until the context is done and polls from then on)
+			if !good {
+				seenFlag := map[ssa.Value]bool{}
+				var raisedOnlyOnDone func(v ssa.Value) bool
+				raisedOnlyOnDone = func(v ssa.Value) bool {
+					ph, ok := v.(*ssa.Phi)
+					if !ok {
+						return false
+					}
+					if seenFlag[ph] {
+						return true
+					}
+					seenFlag[ph] = true
+					for i, e := range ph.Edges {
+						if k, isC := kit.BoolConst(e); isC {
+							if !k {
+								continue
+							}
+							onDone := false
+							for _, st := range selectArmsAt(ph.Block().Preds[i]) {
+								if dc, ok := kit.Root(st.Chan).(*ssa.Call); ok && kit.CalleeName(dc) == ctxDone && sameContext(dc.Call.Value, y) {
+									onDone = true
+								}
+							}
+							if !onDone {
+								return false
+							}
+							continue
+						}
+						if !raisedOnlyOnDone(e) {
+							return false
+						}
+					}
+					return true
+				}
+				good = kit.OnAllWays(s.store.Block(), func(facts []kit.Fact) bool {
+					for _, f := range facts {
+						v, pol := kit.NormBool(f.Cond, f.Pol)
+						if pol && raisedOnlyOnDone(v) {
+							return true
+						}
+						// ... or this way comes straight out of the arm that saw <-X.Done()
+						if bo, ok := f.Cond.(*ssa.BinOp); ok && bo.Op == token.EQL && f.Pol {
+							if ex, ok := bo.X.(*ssa.Extract); ok && ex.Index == 0 {
+								if sel, ok := ex.Tuple.(*ssa.Select); ok {
+									if k, ok := kit.ConstInt(bo.Y); ok && int(k) < len(sel.States) {
+										if dc, ok := kit.Root(sel.States[k].Chan).(*ssa.Call); ok && kit.CalleeName(dc) == ctxDone && sameContext(dc.Call.Value, y) {
+											return true
+										}
+									}
+								}
+							}
+						}
+					}
+					return false
+				}, 0)
+			}
+			// or: a context that was seen done stays done. For a context that is the same value on every way (a
+			// parameter, not the context of the loop's current call): no way from the entry reaches the store without
+			// having passed an arm that received from its Done() channel or a test of its Err() that was not nil
+			if !good {
+				if _, isParam := kit.Root(y).(*ssa.Parameter); isParam {
+					e := kit.PathFromEntry(s.fn, kit.PathQuery{
+						Target: func(x ssa.Instruction) bool { return x == ssa.Instruction(s.store) },
+						SkipEdge: func(from, to *ssa.BasicBlock) bool {
+							for _, f := range kit.EdgeFacts(from, to) {
+								if bo, ok := f.Cond.(*ssa.BinOp); ok && bo.Op == token.EQL && f.Pol {
+									if ex, ok := bo.X.(*ssa.Extract); ok && ex.Index == 0 {
+										if sel, ok := ex.Tuple.(*ssa.Select); ok {
+											if k, ok := kit.ConstInt(bo.Y); ok && int(k) < len(sel.States) {
+												if dc, ok := kit.Root(sel.States[k].Chan).(*ssa.Call); ok && kit.CalleeName(dc) == ctxDone && sameContext(dc.Call.Value, y) {
+													return true
+												}
+											}
+										}
+									}
+								}
+								if cmp, ok := kit.CanonCmp(f.Cond, f.Pol); ok && cmp.Op == token.NEQ && kit.IsNilConst(cmp.Y) {
+									if ec, ok := kit.Root(cmp.X).(*ssa.Call); ok && kit.CalleeName(ec) == ctxErr && sameContext(ec.Call.Value, y) {
+										return true
+									}
+								}
+							}
+							return false
+						},
+					})
+					good = e == nil
 				}
 			}
 			// or: the store sits in a loop over S[low:] whose low bound is len(S) (no iteration)
